@@ -2,7 +2,7 @@
    Model: model/Color.v (kernels of jccolext.c / jdcolext.c / jdmrgext.c per layout, row pointers of
    turbojpeg-mp.c, gray extraction); generated facts: gen/GenLayouts.v. *)
 From Coq Require Import List ZArith.
-From LJT Require Import gen.GenLayouts model.Color proofs.ColorProofs model.TJFlags proofs.TJFlagsProofs model.Color565 proofs.Color565Proofs.
+From LJT Require Import gen.GenLayouts model.Color proofs.ColorProofs model.TJFlags proofs.TJFlagsProofs model.Color565 proofs.Color565Proofs proofs.Merged565Proofs.
 Import ListNotations.
 Local Open Scope Z_scope.
 
@@ -260,11 +260,27 @@ Print Assumptions C10_ycck_cmyk_rows.
 
 (* jdmrg565.c (merged upsampling to RGB565, h2v1/h2v2, plain and dithered): the model has no address input, no state carried
    from row to row; for every width >= 0 the buffer keeps its length and nothing outside the 2*w bytes of the rows is written *)
-Theorem C10_merged565_frame_partial : forall dith v2 w scan ys cbs crs buf ptrs, 0 <= w ->
+Theorem C10_merged565_frame : forall dith v2 w scan ys cbs crs buf ptrs, 0 <= w ->
   length (merged565 false dith v2 w scan ys cbs crs buf ptrs) = length buf /\
   forall j, 0 <= j -> outside_rows (2 * w) ptrs j -> rd (merged565 false dith v2 w scan ys cbs crs buf ptrs) j = rd buf j.
 Proof. exact merged565_frame. Qed.
-Print Assumptions C10_merged565_frame_partial.
+Print Assumptions C10_merged565_frame.
+
+(* ... and the VALUES (round 4): not dithered, little-endian, h2v1 and (through dup_rows) h2v2, every width incl. the odd last
+   column, arbitrary pairwise disjoint in-bounds row pointers: each output pixel is PACK_SHORT_565 of the plain YCbCr->RGB
+   conversion (val565 0, the word jdcol565.c produces) of its luma sample with the chroma sample of its pair, i.e. the
+   RGB565 conversion of merged_image (the same image C10_merged_is_plain speaks about); length kept, frame.
+   mrow_ok wn r: row r has wn luma and (wn+1)/2 chroma samples and its 16-bit words are < 65536 (okv). *)
+Theorem C10_merged565_values : forall (v2 : bool) wn scan ys (cbs crs : list (list Z)) buf ptrs,
+  let cbs' := if v2 then dup_rows cbs else cbs in let crs' := if v2 then dup_rows crs else crs in
+  length (zip3rows ys cbs' crs') = length ptrs -> Forall (mrow_ok wn) (zip3rows ys cbs' crs') ->
+  in_bounds (2 * Z.of_nat wn) (length buf) ptrs -> separated (2 * Z.of_nat wn) ptrs ->
+  let out := merged565 false false v2 (Z.of_nat wn) scan ys cbs crs buf ptrs in
+  length out = length buf /\
+  (forall j, 0 <= j -> outside_rows (2 * Z.of_nat wn) ptrs j -> rd out j = rd buf j) /\
+  unpack565 false out ptrs wn = map (map (val565 0)) (merged_image ys cbs' crs').
+Proof. exact merged565_values. Qed.
+Print Assumptions C10_merged565_values.
 
 (* ordered dithering in jdcol565.c: the dither state of a call is dither_matrix[output_scanline & 3], taken once per call ... *)
 Theorem C10_dither565_call_state : forall src base scan w img buf ptrs,
